@@ -140,7 +140,7 @@ class NDJsonProtocolReader:
             return MISSING_SENTINEL
 
         line = self._stream.readline()
-        if line == "":
+        if not line:  # "" of a text stream, b"" of a binary one
             if not required:
                 return MISSING_SENTINEL
             raise ValueError(
